@@ -49,6 +49,7 @@ class RunResult:
         self.harness_error = None
         self.interleaving = ""
         self.abstract = ()
+        self.scenario = None
 
     def v(self, clause, disc, msg):
         self.violations.append(Violation(clause, disc, msg))
@@ -58,12 +59,16 @@ def load_prop(prop):
     return importlib.import_module("props." + prop.lower())
 
 
-def run_once(mod, tier, verif_seed, run_index, replay=None):
-    """one simulated run.  Returns (RunResult, recorded tapes)."""
+def run_once(mod, tier, verif_seed, run_index, replay=None, scenario=None):
+    """one simulated run.  Returns (RunResult, recorded tapes).  With
+    `scenario` the W tape is bypassed: the workload is the pinned scenario."""
     tapes = Tapes(verif_seed, mod.PROPERTY, run_index, replay=replay)
     faulthandler.dump_traceback_later(RUN_WATCHDOG, exit=True)
     try:
-        res = mod.run_one(tapes, tier)
+        if scenario is not None:
+            res = mod.run_one(tapes, tier, scenario=scenario)
+        else:
+            res = mod.run_one(tapes, tier)
     finally:
         faulthandler.cancel_dump_traceback_later()
     return res, tapes.recorded()
@@ -245,7 +250,7 @@ def _shrink_job(prop, tier, viol, budget_s):
         if v.sig(prop) == viol["sig"]:
             msg = v.msg
     return {"sig": viol["sig"], "msg": msg, "tapes": rec, "digest": res.digest,
-            "tries": tries, "reproduced": ok, "sample": res.sample,
+            "tries": tries, "reproduced": ok, "sample": res.sample, "scenario": res.scenario,
             "orig_run_index": viol["run_index"]}
 
 
@@ -262,7 +267,8 @@ def load_known(prop):
 def replay_file(mod, path, tier=None):
     with open(path) as f:
         rp = json.load(f)
-    res, rec = run_once(mod, tier or rp.get("tier", "quick"), 0, 0, replay=rp["tapes"])
+    res, rec = run_once(mod, tier or rp.get("tier", "quick"), 0, 0, replay=rp["tapes"],
+                        scenario=rp.get("scenario"))
     return rp, res
 
 
@@ -454,7 +460,7 @@ def main(argv=None):
                 json.dump({
                     "property": prop, "clause": clause, "signature": r["sig"], "message": r["msg"],
                     "verif_seed": verif_seed, "run_index": r["orig_run_index"], "tier": tier,
-                    "tapes": r["tapes"], "expected_digest": r["digest"],
+                    "tapes": r["tapes"], "scenario": r["scenario"], "expected_digest": r["digest"],
                     "shrink_tries": r["tries"], "summary": r["sample"],
                 }, f, indent=1, default=str)
             if not r["reproduced"]:
